@@ -245,8 +245,15 @@ def run(ctx):
         parts = flatten_sum(arg_nodes(w[0])[0])
         okw = parts == {"dbKeyID.value": 2, "dependency.singleUse": 1, "dependency.orderOnly": 0}
     r.check(okw, "setRuleResult|word-layout", "", "dependency word packed as %s" % (parts if len(w) == 1 else "?"), f)
+    # wherever the dependency blob is decoded (in the readers themselves or in a helper they share)
+    dbfns = [g for g in prog.functions.values() if g.cls.endswith("SQLiteBuildDB") and not g.is_lambda]
+    decoders = [g for g in dbfns if g.calls("DependencyKeyIDs::set")]
     for fname in ("lookupRuleResult", "getKeysWithResult"):
-        g = prog.fn(DB + "::" + fname)
+        rd = prog.fn(DB + "::" + fname)
+        reach = rd in decoders or any((c.get("fk") and prog.functions.get(c.get("fk")) in decoders) for c in rd.calls())
+        r.check(reach, "%s|decodes-dependencies" % fname, "", "%s does not decode the stored dependency list" % fname, rd)
+    for g in decoders:
+        fname = g.name.split("::")[-1]
         decls = {v["n"]: g.nodes[v["init"]] for d in g.nodes if d.get("k") == "decl" for v in d["vars"] if "init" in v}
         oo = shape_bits(decls.get("orderOnly"))
         su = shape_bits(decls.get("singleUse"))
